@@ -149,7 +149,7 @@ namespace TrRouting
                      //TODO Really not sure this is equivalent
                      reverseAccessJourneysSteps.count(transferableNode.node.uid) == 0
                      || 
-                     reverseAccessJourneysSteps.at(transferableNode.node.uid).getFinalEnterConnection().value().get().getDepartureTime() <= connectionDepartureTime - connectionMinWaitingTimeSeconds
+                     reverseAccessJourneysSteps.at(transferableNode.node.uid).getFinalEnterConnection().value().get().getDepartureTime() - reverseAccessJourneysSteps.at(transferableNode.node.uid).getFinalEnterConnection().value().get().getMinWaitingTimeOrDefault(parameters.getMinWaitingTimeSeconds()) <= connectionDepartureTime - connectionMinWaitingTimeSeconds
                     )
                   )
                   {                    
@@ -346,7 +346,7 @@ namespace TrRouting
                      //TODO Really not sure this is equivalent
                      reverseAccessJourneysSteps.count(transferableNode.node.uid) == 0
                      ||
-                     reverseAccessJourneysSteps.at(transferableNode.node.uid).getFinalEnterConnection().value().get().getDepartureTime() <= connectionDepartureTime - connectionMinWaitingTimeSeconds
+                     reverseAccessJourneysSteps.at(transferableNode.node.uid).getFinalEnterConnection().value().get().getDepartureTime() - reverseAccessJourneysSteps.at(transferableNode.node.uid).getFinalEnterConnection().value().get().getMinWaitingTimeOrDefault(parameters.getMinWaitingTimeSeconds()) <= connectionDepartureTime - connectionMinWaitingTimeSeconds
                     )
                   )
                   {
